@@ -4,7 +4,7 @@
 From Coq Require Import String ZArith List Bool.
 Require Import OV.Shape.SymDim OV.Shape.SymDimProofs OV.Shape.PartialEval OV.Shape.PartialEvalProofs.
 Require Import OV.Shape.Extra OV.Shape.ExtraProofs OV.Gen.ShapeUsers OV.Shape.Coverage OV.Shape.CoverageProofs.
-Require Import OV.Shape.Materialize OV.Shape.MaterializeProofs.
+Require Import OV.Shape.Materialize OV.Shape.MaterializeProofs OV.Shape.Broadcast OV.Shape.BroadcastProofs.
 Import ListNotations.
 Open Scope Z_scope.
 
@@ -162,3 +162,20 @@ Theorem C09_flatten_no_constant_target : forall az a b, exists cx,
   List.length cx = 4%nat /\ Forall (fun n => 0 <= n) cx /\ reshape_out az cx [a; b] <> Some (flatten_out cx 1).
 Proof. exact flatten_no_constant_target. Qed.
 Print Assumptions C09_flatten_no_constant_target.
+
+(* ---- _ir_utils.broadcast_keeps_rank (helper of the normalization fusions; the fusions themselves: C19_rms_rank_guard_sufficient,
+   C19_ln_rank_guard_sufficient, C19_ln_bias_rank_guard_sufficient): it compares ranks only, and a rank does not depend on
+   the binding of the symbols *)
+Theorem C09_rank_valuation_independent : forall rho s c, shape_denotes rho s c -> List.length c = List.length s.
+Proof. exact rank_valuation_independent. Qed.
+Print Assumptions C09_rank_valuation_independent.
+
+Theorem C09_broadcast_keeps_rank_sound : forall sv sr, bkr_check (Some sv) (Some sr) = true -> (1 <= List.length sr)%nat ->
+  forall rho cv cr o, shape_denotes rho sv cv -> shape_denotes rho sr cr -> bcast cv cr = Some o ->
+  List.length o = List.length cr.
+Proof. exact broadcast_keeps_rank_sound. Qed.
+Print Assumptions C09_broadcast_keeps_rank_sound.
+
+Theorem C09_broadcast_keeps_rank_no_reference : forall sv, bkr_check (Some sv) None = true -> (List.length sv <= 1)%nat.
+Proof. exact broadcast_keeps_rank_no_reference. Qed.
+Print Assumptions C09_broadcast_keeps_rank_no_reference.
